@@ -46,6 +46,11 @@ PACKS = {
     "redpar": dict(redpar=True),
     # two competing expansion strategies for every class
     "two": dict(expand2=True),
+    # a factory that also yields ready rules of the children of the class it expands (rules of unrelated classes)
+    "lookahead": dict(lookahead=True),
+    # the same (parent, child) key once from a one-way and once from a two-way strategy, in both orders
+    "ow2a": dict(ow2="a"),
+    "ow2b": dict(ow2="b"),
 }
 # packs whose point is a statistics mechanism always run with statistics; the cycle symmetry needs three letters
 PACK_STATS = {"trim": "s2", "trimsym": "s2", "rename": "s2", "mono": "s1", "trimonly": "s2", "trimrename": "s2", "hidden": "s1"}
@@ -107,7 +112,7 @@ def configs(tier: str, seed: int, flavours=("default", "forget", "forest"), pack
     if max_n:
         # configurations that must not be sampled away: the packs that exist for one specific mechanism
         special = [c for c in out if c[4] in ("lazy", "needrev", "oneway", "onewaysym", "pfactory", "split", "trim", "trimsym", "rename",
-                                              "mono", "fac2", "symcycle", "trimonly", "trimrename", "hidden", "pfactory2", "noinf", "redpar")]
+                                              "mono", "fac2", "symcycle", "trimonly", "trimrename", "hidden", "pfactory2", "noinf", "redpar", "lookahead", "ow2a", "ow2b")]
         keep = []
         seen = set()
         for c in special:
@@ -136,7 +141,7 @@ def build(cfg):
 
 
 def W_needs_redundant(pk):
-    return bool(PACKS[pk].get("inf")) and not PACKS[pk].get("oneway")
+    return (bool(PACKS[pk].get("inf")) and not PACKS[pk].get("oneway")) or bool(PACKS[pk].get("ow2"))
 
 
 def tid_of(cfg):
